@@ -272,6 +272,7 @@ func init() {
 	Register("C19", func(c *Ctx) {
 		c.Out.Rule = "BFS over up/down toggle sequences (depth 4, states = liveness vectors) of 1..3 (quick) / 1..4 (thorough; n=4 with 3 masks in quick) real loopback origins x every primary/backup mask x policies {roundRobin, first, random, leastconn} x health mode {TCP, HTTP ping}; after every toggle an explicit health check (settle) and 3n sequential requests through pike's real proxy: only healthy servers, backups only when no primary is healthy, round-robin counts differ by <=1, all down => 5xx, recovery resumes traffic"
 		c.Out.Assume = []string{"instances live well below the 5 s period of the library's own health-check ticker", "loopback TCP"}
+		c19RealProcess(c)
 		var idx int64
 		c.NoMergeCap = 400
 		for n := 1; n <= 4; n++ {
